@@ -13,7 +13,7 @@ import (
 
 // C17 — vi delete removes exactly what yank would copy.
 
-const c17Rule = "buffers (words, punctuation, quotes, brackets, blanks, some multi-byte) x cursor positions (vi command mode) x motions and text objects from the statement's list (h l w b e W B E 0 $ ^ f/F/t/T<c> % ge gE iw aw iW aW i<q> a<q> i<b> a<b> ia aa) with optional counts before the operator and/or the motion, in operator-pending form (d<m> / y<m>) and visual form (v<m>d / v<m>y); keys one per read; under 0-3 display-only variables (blink-matching-paren, show-mode-in-prompt, cursor styles, ...); oracle (differential, two fresh sessions with an identical prefix): yank leaves the buffer unchanged; the register after delete equals the register after yank; the buffer after delete is the original with one contiguous occurrence of that text removed; a motion that fails leaves buffer and register unchanged in both; non-trivial = register non-empty and the motion is not h/l with count 1; distinct = hash of the case"
+const c17Rule = "buffers (words, punctuation, quotes, brackets, blanks, some multi-byte) x cursor positions (vi command mode) x motions and text objects from the statement's list (h l w b e W B E 0 $ ^ space | f/F/t/T<c> % ge gE iw aw iW aW i<q> a<q> i<b> a<b> ia aa) with optional counts before the operator and/or the motion, in operator-pending form (d<m> / y<m>) and visual form (v<m>d / v<m>y); keys one per read; under 0-3 display-only variables (blink-matching-paren, show-mode-in-prompt, cursor styles, ...); oracle (differential, two fresh sessions with an identical prefix): yank leaves the buffer unchanged; the register after delete equals the register after yank; the buffer after delete is the original with one contiguous occurrence of that text removed; a motion that fails leaves buffer and register unchanged in both; non-trivial = register non-empty and the motion is not h/l with count 1; distinct = hash of the case"
 
 type C17Case struct {
 	Text   string `json:"text"`
@@ -27,7 +27,12 @@ type C17Case struct {
 }
 
 var c17Motions = []string{"h", "l", "w", "b", "e", "W", "B", "E", "0", "$", "^", "fa", "Fa", "ta", "Ta", "f ", "F(", "t\"", "T.", "%", "ge", "gE",
-	"iw", "aw", "iW", "aW", "i\"", "a\"", "i'", "a'", "i(", "a(", "i[", "a{", "ia", "aa"}
+	"iw", "aw", "iW", "aW", "i\"", "a\"", "i'", "a'", "i(", "a(", "i[", "a{", "ia", "aa",
+	// motions bound to other keys: space, column. (Function keys are not motions
+	// in the operator-pending and visual keymaps: their ESC is taken as the key
+	// that leaves the mode and the rest runs as commands, which falls under the
+	// lone-ESC carve-out of C03/C05 and is not this property's subject.)
+	" ", "|"}
 
 var c17Pieces = []string{"foo", "bar", "baz", " ", "  ", "a", "aa", "(a b)", "[x]", "{y z}", "\"q a\"", "'s a'", "x.y", "a-b_c", "--opt=val", ";", "a(b)c", "日本", "é", "f(g(h))", "end."}
 
@@ -98,6 +103,17 @@ func runC17Session(h *Harness, child *rig.Child, c *C17Case, op string) (*c17Out
 		}
 	}
 
+	// a function key is one key: its bytes arrive in one read (a lone ESC would
+	// be a key of its own, see C05)
+	sendMotion := func(m string) {
+		if strings.HasPrefix(m, "\x1b") {
+			d.send([]byte(m))
+			return
+		}
+
+		sendKeys(m)
+	}
+
 	if c.Visual {
 		sendKeys("v")
 
@@ -105,7 +121,7 @@ func runC17Session(h *Harness, child *rig.Child, c *C17Case, op string) (*c17Out
 			sendKeys(fmt.Sprint(c.MoCnt))
 		}
 
-		sendKeys(c.Motion)
+		sendMotion(c.Motion)
 		sendKeys(op)
 	} else {
 		if c.OpCnt > 0 {
@@ -118,7 +134,7 @@ func runC17Session(h *Harness, child *rig.Child, c *C17Case, op string) (*c17Out
 			sendKeys(fmt.Sprint(c.MoCnt))
 		}
 
-		sendKeys(c.Motion)
+		sendMotion(c.Motion)
 	}
 
 	if d.fail != nil {
